@@ -50,6 +50,7 @@ def exec_case(prop, case, ctx):
         # contract failures and protected writes that a property did not collect itself
         for name, detail in mon.CONTRACTS.take():
             ctx.violate(f"{prop.ID}/contract:{name}", detail)
+        ctx.harness_errors.extend(mon.CONTRACTS.take_errors())
         mon.TRACER.clear()
 
 
